@@ -123,10 +123,11 @@ type snap struct {
 }
 
 type snapStore struct {
-	mu    sync.Mutex
-	c     *ctl
-	snaps []*snap
-	seq   int
+	failClose int // the next n sink.Close calls fail (disk error at finalize)
+	mu        sync.Mutex
+	c         *ctl
+	snaps     []*snap
+	seq       int
 }
 
 type snapSink struct {
@@ -153,6 +154,13 @@ func (k *snapSink) Close() error {
 		return nil
 	}
 	k.done = true
+	k.st.mu.Lock()
+	if k.st.failClose > 0 {
+		k.st.failClose--
+		k.st.mu.Unlock()
+		return errInjected
+	}
+	k.st.mu.Unlock()
 	if err := k.st.c.write(false, fmt.Sprintf("SC %d %d", k.s.meta.Index, k.s.meta.Term)); err != nil {
 		return err
 	}
